@@ -127,8 +127,9 @@ def instances(tier, seed):
         tables = tables[:per_model]
         for ti, tb in enumerate(tables):
             for algo in algos:
-                if algo == "qr" and (len(tb) + n > 5 and tier == "quick" or len(tb) > 3 or (n >= 4 and len(tb) > 2)):
-                    continue      # pivoted-QR contract: permutation and rank are solver-chosen, the forks grow with sites x terms
+                if algo == "qr" and (len(tb) + n > 5 or len(tb) > 3):
+                    continue      # pivoted-QR contract: permutation and rank are solver-chosen, the forks grow with sites x terms; beyond sites + terms = 5 the
+                                  # obligations stay `unknown` or produce candidates that do not replay (both tiers use the same bound)
                 add(kinds, tb, algo, offset=(ti % 2 == 0))
             # swaps on a subset
             if ti % 4 == 0 and n >= 2 and "m" not in kinds and len(tb) <= 5:
